@@ -11,9 +11,12 @@ META = {
         "one). R2 (MPT): in every look-ahead over the whole timeline, reading a candidate's operation is dominated by the "
         "ticker-equality guard (30-day loop) or the element filter requires ticker equality (same-day quantity lookup). R3: the "
         "same-day merge is dominated by a ticker-equality test. R4 (WHO): every Transaction value constructed in library code "
-        "has a ticker rooted at to_uppercase, in both the DSL consumer and the JSON deserializer. Does not decide that "
+        "has a ticker rooted at to_uppercase, in both the DSL consumer and the JSON deserializer. R5 (index space): the tables "
+        "shared by all securities (30-day claims, cost offsets) are keyed by a line's position in the whole list; an enumerate "
+        "index used as such a key must be taken before any stage that drops elements (filter/skip/skip_while/rev). Does not decide that "
         "report(all) is the combination of the per-security reports."),
     "trusted_base": ["str::to_uppercase; HashMap keyed lookup", "rustc MIR + resolution"],
+    "engines": ["mirfacts", "rules", "posctl"],
 }
 
 MAP_METHODS = ("get", "get_mut", "entry", "insert", "remove", "contains_key")
@@ -166,8 +169,42 @@ def uppercase(R, rep):
         rep.unresolved("R4", "Transaction-ctors", f"{n} constructions of Transaction in library code (DSL consumer and JSON deserializer expected)")
 
 
+def shared_index_space(R, rep, rule="R5"):
+    """The claims table and the cost-offset table are shared by all securities and keyed by a line's position in the whole
+    transaction list. A position obtained from `enumerate` is that position only if nothing was dropped from the stream
+    before the enumerate: after `.filter(is_buy).enumerate()` the presence of ANOTHER security's line on the same day shifts the
+    key of this security's purchase (seeded change C09-s3)."""
+    from roles import misaligned_index_keys
+    F = R.F
+    bodies = [b for b in F.user_bodies("cgt_core") if "::matcher::" in b.id]
+    bad, aligned = misaligned_index_keys(R, bodies)
+    for b, i, callee, why in bad:
+        rep.ob(rule, f"{b.short}:index-key", False,
+               f"an enumerate index taken after {'/'.join(why)} is used as a key of `{parse_callee(callee)[2]}`: it counts the surviving elements, not "
+               "positions in the transaction list, so other securities' lines on the same day shift the key", b.loc(b.term(i)["sp"]),
+               key=f"{rule}:{b.short}:misaligned-index-key")
+    rep.ob(rule, "matcher:index-keys", not bad, f"{aligned} enumerate indices used as table keys are positions in the enumerated source"
+           if not bad else f"{len(bad)} misaligned index keys", "crates/cgt-core/src/matcher/mod.rs", key=f"{rule}:matcher:index-keys")
+    rep.count("enumerate_index_keys", aligned + len(bad))
+    if aligned + len(bad) == 0:
+        rep.unresolved(rule, "index-keys", "no enumerate index is used as a table key in the matcher (the per-line tables are expected to be keyed by position)")
+
+
+def controls(pctx, rep):
+    from roles import misaligned_index_keys, Roles as _Roles
+    F = pctx.F
+    try:
+        R = _Roles(F)
+        bad, aligned = misaligned_index_keys(R, [F.one("misaligned_index"), F.one("aligned_index")])
+        ok = [b.short.split("::")[-1] for b, _, _, _ in bad] == ["misaligned_index"] and aligned == 1
+        rep.control("R5:index-space", ok, f"posctl: misaligned keys in {[b.short for b, _, _, _ in bad]}, aligned uses {aligned} (expected misaligned_index / 1)")
+    except Exception as e:
+        rep.control("R5:index-space", False, f"index-space detector failed on posctl: {e}")
+
+
 def run(ctx, rep):
     R = Roles(ctx.F)
+    shared_index_space(R, rep)
     keyed_access(R, rep)
     lookahead_guards(R, rep)
     merge_guard(R, rep)
